@@ -286,6 +286,20 @@ zlk_deep :: fn f: fn (fn *A -> int) -> int, x: *A -> int do
     ret f(fn y: *A -> int do 0 end)
 end
 
+zlast3 :: fn t: (*A, *B, *A) -> *A do
+    t[2]
+end
+
+zsame3 :: fn l: [(*A, *B, *A)] -> int do
+    0
+end
+
+Zpair3 :: blob(*A, *B) {
+    a: *A,
+    b: *B,
+    c: *A,
+}
+
 Z3 :: blob {
     a: int,
     b: int,
@@ -420,6 +434,9 @@ pub const C03_KINDS: &[Kind] = &[
     k("nested fold whose inner callback returns the outer callback's list parameter as a str accumulator", Body::Stmts(&["zq :: fold([[\"l\"]], \"0\", pu zx, zacc -> fold([9], zacc, pu zy, za2 -> zx end) end)", "zr :: zq + \"-\""])),
     // compound assignment where target and value have the SAME type, but the operator is not defined for it
     // (the target is not used afterwards: nothing else would re-check the operator)
+    k("bool *= itself", Body::Stmts(&["zb := true", "zb *= zb"])),
+    k("str -= itself", Body::Stmts(&["zs := \"a\"", "zs -= zs"])),
+    k("str field /= itself", Body::Stmts(&["zo := Zb2 { a: 1, b: \"s\" }", "zo.b /= zo.b"])),
     k("str -= str", Body::Stmts(&["zs := \"a\"", "zs -= \"b\""])),
     k("str *= str", Body::Stmts(&["zs := \"a\"", "zs *= \"b\""])),
     k("str /= str", Body::Stmts(&["zs := \"a\"", "zs /= \"b\""])),
@@ -428,6 +445,18 @@ pub const C03_KINDS: &[Kind] = &[
     k("str field -= str", Body::Stmts(&["zo := Zb2 { a: 1, b: \"s\" }", "zo.b -= \"x\""])),
     k("str field *= str", Body::Stmts(&["zo := Zb2 { a: 1, b: \"s\" }", "zo.b *= \"!\""])),
     k("bool += bool inside a loop", Body::Stmts(&["zn := 0", "loop zn < 2 do", "    zn += 1", "    zf := true", "    zf += false", "end"])),
+    // a mismatch in a LATE component of a composite whose two sides repeat their variables: every component pair
+    // is compared, also when both of its members already took part in an earlier pair
+    k("late component: list of 3-tuples of variables, third pair mismatching", Body::Stmts(&["zx := 1", "zy := \"s\"", "zp := 2", "zq := \"t\"", "zl := [(zx, zy, zy), (zp, zq, zp)]"])),
+    k("late component: equality of 3-tuples of variables, third pair mismatching", Body::Stmts(&["zx := 1", "zy := \"s\"", "zp := 2", "zq := \"t\"", "zsame := (zx, zy, zy) == (zp, zq, zp)"])),
+    k("late component: 4-tuples of variables, fourth pair mismatching", Body::Stmts(&["zx := 1", "zy := \"s\"", "zp := 2", "zq := \"t\"", "zl := [(zx, zy, zx, zy), (zp, zq, zp, zp)]"])),
+    k("late component: nested tuples of variables", Body::Stmts(&["zx := 1", "zy := \"s\"", "zp := 2", "zq := \"t\"", "zl := [((zx, zy), zy), ((zp, zq), zp)]"])),
+    k("late component: tuple variable assigned another 3-tuple", Body::Stmts(&["zx := 1", "zy := \"s\"", "zp := 2", "zq := \"t\"", "zt := (zx, zy, zy)", "zt = (zp, zq, zp)"])),
+    k("late component: tuple + tuple of variables", Body::Stmts(&["zx := 1", "zy := \"s\"", "zp := 2", "zq := \"t\"", "zt := (zx, zy, zy) + (zp, zq, zp)"])),
+    k("late component: arms of an if-expression", Body::Stmts(&["zx := 1", "zy := \"s\"", "zp := 2", "zq := \"t\"", "zt := if zx > 0 do", "    (zx, zy, zy)", "else do", "    (zp, zq, zp)", "end"])),
+    k("late component: argument against a signature repeating a type variable", Body::Stmts(&["zx := 1", "zy := \"s\"", "zp := 2", "zq := \"t\"", "zn: int = zlast3((zx, zy, zy))"])),
+    k("late component: list elements against a signature repeating a type variable", Body::Stmts(&["zx := 1", "zy := \"s\"", "zp := 2", "zq := \"t\"", "zn := zsame3([(zx, zy, zy)])"])),
+    k("late component: blob with two fields of one type variable", Body::Stmts(&["zx := 1", "zy := \"s\"", "zp := 2", "zq := \"t\"", "zo := [Zpair3 { a: zx, b: zy, c: zy }, Zpair3 { a: zp, b: zq, c: zp }]"])),
     // stacks of unary operators: every layer must be checked, an even number of them is no identity
     k("neg neg str", Body::Expr("-(-\"s\")")),
     k("neg neg str (no parentheses)", Body::Expr("--\"s\"")),
@@ -486,6 +515,23 @@ pub const C04_KINDS: &[Kind] = &[
     k("assign to parameter from nested closure", Body::Stmts(&["zf :: fn zp: int do", "    zg :: fn do", "        zp = 3", "    end", "end"])),
     k("assign to case binding", Body::Stmts(&["case Maybe.Just 1 do", "    Just zb ->", "        zb = 2", "    end", "    None ->", "    end", "end"])),
     k("+= on case binding", Body::Stmts(&["case Ze2.A 1 do", "    A zb ->", "        zb += 2", "    end", "    else", "    end", "end"])),
+    // a constant stays a constant after an inner scope declared a MUTABLE variable of the same name: the inner
+    // name ends with its scope (if / else / elif arm, loop body, block, case arm, case else, closure body)
+    k("assign to :: local after a same-named mutable in an inner if arm", Body::Stmts(&["zc :: 1", "if true do", "    zc := 5", "    zc = 6", "end", "zc = 2"])),
+    k("assign to :: local after a same-named mutable in an inner else arm", Body::Stmts(&["zc :: 1", "if false do", "else do", "    zc := 5", "    zc = 6", "end", "zc = 2"])),
+    k("assign to :: local after a same-named mutable in an inner elif arm", Body::Stmts(&["zc :: 1", "if false do", "elif true do", "    zc := 5", "    zc = 6", "end", "zc = 2"])),
+    k("assign to :: local after a same-named mutable in an inner loop body", Body::Stmts(&["zc :: 1", "loop do", "    zc := 5", "    zc = 6", "    break", "end", "zc = 2"])),
+    k("assign to :: local after a same-named mutable in an inner block", Body::Stmts(&["zc :: 1", "do", "    zc := 5", "    zc = 6", "end", "zc = 2"])),
+    k("assign to :: local after a same-named mutable in an inner case arm", Body::Stmts(&["zc :: 1", "case Ze2.B do", "    B ->", "        zc := 5", "        zc = 6", "    end", "    else", "    end", "end", "zc = 2"])),
+    k("assign to :: local after a same-named mutable in an inner case else", Body::Stmts(&["zc :: 1", "case Ze2.B do", "    A zx ->", "    end", "    else", "        zc := 5", "        zc = 6", "    end", "end", "zc = 2"])),
+    k("assign to :: local after a same-named mutable in an inner closure body", Body::Stmts(&["zc :: 1", "zg :: fn do", "    zc := 5", "    zc = 6", "end", "zc = 2"])),
+    k("assign to parameter after a same-named mutable in an inner case else", Body::Stmts(&["zf :: fn zc: int do", "    case Ze2.B do", "        A zx ->", "        end", "        else", "            zc := 5", "            zc = 6", "        end", "    end", "    zc = 2", "end"])),
+    k("assign to case binding after a same-named mutable in an inner case else", Body::Stmts(&["case Maybe.Just 1 do", "    Just zc ->", "        case Ze2.B do", "            A zx ->", "            end", "            else", "                zc := 5", "                zc = 6", "            end", "        end", "        zc = 2", "    end", "    None ->", "    end", "end"])),
+    k("assign to parameter after a same-named mutable in an inner if arm", Body::Stmts(&["zf :: fn zc: int do", "    if true do", "        zc := 5", "        zc = 6", "    end", "    zc = 2", "end"])),
+    k("assign to case binding after a same-named mutable in an inner if arm", Body::Stmts(&["case Maybe.Just 1 do", "    Just zc ->", "        if true do", "            zc := 5", "            zc = 6", "        end", "        zc = 2", "    end", "    None ->", "    end", "end"])),
+    k("assign to parameter after a same-named mutable in an inner loop body", Body::Stmts(&["zf :: fn zc: int do", "    loop do", "        zc := 5", "        zc = 6", "        break", "    end", "    zc = 2", "end"])),
+    k("assign to case binding after a same-named mutable in an inner loop body", Body::Stmts(&["case Maybe.Just 1 do", "    Just zc ->", "        loop do", "            zc := 5", "            zc = 6", "            break", "        end", "        zc = 2", "    end", "    None ->", "    end", "end"])),
+    k("+= on :: local after a same-named mutable in an inner case else", Body::Stmts(&["zc :: 1", "case Ze2.B do", "    A zx ->", "    end", "    else", "        zc := 5", "        zc = 6", "    end", "end", "zc += 2"])),
     k("assign to constant aliasing a constant", Body::Stmts(&["za :: 1", "zb :: za", "zb = 3"])),
     k("assign to local function constant", Body::Stmts(&["zf :: fn do", "end", "zf = fn do", "end"])),
     k("pure: assignment to outer mutable", Body::InPure { prelude: &["zm := 1"], params: "", viol: &["zm = 2"] }),
